@@ -27,7 +27,7 @@ var oddStrings = []string{
 func genOdd(t *rapid.T, label string) string {
 	switch rapid.IntRange(0, 9).Draw(t, label+"-k") {
 	case 0:
-		n := rapid.SampledFrom([]int{64, 255, 256, 1024, 5000, 70000}).Draw(t, label+"-n")
+		n := rapid.SampledFrom([]int{10, 11, 47, 48, 50, 51, 64, 80, 81, 120, 121, 255, 256, 257, 1024, 1025, 4096, 4097, 5000, 70000}).Draw(t, label+"-n")
 		return strings.Repeat(rapid.SampledFrom([]string{"a", "é", "%", "'", "../", "9"}).Draw(t, label+"-c"), n)
 	case 1:
 		return rapid.StringN(0, 12, -1).Draw(t, label+"-s")
@@ -676,8 +676,20 @@ func (e *env) genBody(t *rapid.T, info router.VerifRouteInfo, fc focus) (string,
 		}
 		return string(b)
 	}
-	k := rapid.IntRange(0, 19).Draw(t, "bodykind")
+	k := rapid.IntRange(0, 23).Draw(t, "bodykind")
 	switch {
+	case k >= 20 && len(base) > 0:
+		// one string leaf of a documented payload set to a size class
+		n := rapid.SampledFrom(sizes).Draw(t, "size")
+		kind := rapid.SampledFrom(sizeKinds).Draw(t, "sizekind")
+		vs := replaceStringLeaves(rapid.SampledFrom(base).Draw(t, "base"), func(string) []string { return []string{sized(kind, n)} })
+		if len(vs) > 0 {
+			return enc(vs[rapid.IntRange(0, len(vs)-1).Draw(t, "leaf")]), fmt.Sprintf("sized:%s:%d", kind, n)
+		}
+		return sized(kind, n), fmt.Sprintf("sized-raw:%s:%d", kind, n)
+	case k >= 20:
+		n := rapid.SampledFrom(sizes).Draw(t, "size")
+		return sized("a", n), fmt.Sprintf("sized-raw:a:%d", n)
 	case k <= 4 && len(base) > 0:
 		return enc(rapid.SampledFrom(base).Draw(t, "base")), "documented"
 	case k <= 11 && len(base) > 0:
@@ -731,6 +743,188 @@ func (e *env) genBody(t *rapid.T, info router.VerifRouteInfo, fc focus) (string,
 }
 
 // ---------------------------------------------------------------- the case
+
+// ---------------------------------------------------------------- configuration state
+
+// allLoggerNames is ui.LoggerNames() upper-cased (fixed here so that Gen does
+// not depend on the fixture): every logger of the server.
+var allLoggerNames = []string{"AI", "APP", "ASSET", "AUTH", "BYTECODE", "CACHE", "CHILD", "CLI", "COMPILER", "DB", "DEBUG", "GOROUTINE", "INFO", "INTERNAL", "OPTIMIZER", "PACKAGES", "RESOURCES", "REST", "ROUTE", "SERVER", "SERVICES", "SQL", "STATS", "SYMBOLS", "TABLES", "TOKENIZER", "TRACE", "USER", "VALID"}
+
+// toggles are the settings that internal/server/**, internal/router,
+// internal/util, internal/caches and the service runner consult at request time
+// and that are safe to change in-process (grep settings.Get* over those trees).
+// Deliberately absent: ego.server.panic.recovery (the detector),
+// ego.server.auth.maxattempts (would lock the administrator out),
+// ego.server.authority / oauth.* / ai.endpoint (outbound network),
+// ego.server.child.services* (exec of the test binary), token key / userdata /
+// path settings (invalidate the fixture), ego.runtime.panics (turns an Ego
+// panic() into a Go panic by design).
+var toggles = []struct {
+	key  string
+	vals []string
+}{
+	{"ego.server.database.empty.filter.error", []string{"true", "false"}},
+	{"ego.server.database.empty.rowset.error", []string{"true", "false"}},
+	{"ego.server.database.partial.insert.error", []string{"true", "false"}},
+	{"ego.server.max.item.limit", []string{"1", "2", "1000", "0", "-1", "abc"}},
+	{"ego.server.compression.threshold", []string{"0", "1", "100", "-1", "abc"}},
+	{"ego.runtime.timezone", []string{"UTC", "America/New_York", "Bogus/Zone", "Local", ""}},
+	{"ego.server.log.response", []string{"true", "false"}},
+	{"ego.server.report.fqdn", []string{"true", "false"}},
+	{"ego.server.max.body.size", []string{"10", "100", "1000", "-1", "abc"}},
+	{"ego.server.token.expiration", []string{"1h", "bogus", "-1h", "0s", ""}},
+	{"ego.server.dashboard.inactivity", []string{"5m", "bogus", "0s", "-1m"}},
+	{"ego.server.service.cache.size", []string{"0", "1", "abc", "-1"}},
+	{"ego.server.cache.maxsize", []string{"0", "1", "abc"}},
+	{"ego.server.allow.passkeys", []string{"true", "false"}},
+	{"ego.server.webauthn.rpid", []string{"", "localhost", "bogus host", "ünï"}},
+	{"ego.server.plaintext.passwords", []string{"true", "false"}},
+	{"ego.server.superuser", []string{"", "c40user", "nosuch"}},
+	{"ego.server.ai.model", []string{"", "c40-model"}},
+	{"ego.server.js.minify", []string{"true", "false"}},
+	{"ego.server.js.shortvarnames", []string{"true", "false"}},
+	{"ego.compiler.types", []string{"strict", "relaxed", "dynamic", "bogus"}},
+	{"ego.compiler.extensions", []string{"true", "false"}},
+	{"ego.compiler.import", []string{"true", "false"}},
+	{"ego.compiler.optimize", []string{"0", "1", "2", "3", "abc"}},
+	{"ego.compiler.normalized", []string{"true", "false"}},
+	{"ego.runtime.unchecked.errors", []string{"true", "false"}},
+	{"ego.runtime.precision.error", []string{"true", "false"}},
+	{"ego.runtime.float.div.zero.error", []string{"true", "false"}},
+	{"ego.runtime.exec", []string{"true", "false"}},
+	{"ego.runtime.sandbox.path", []string{"", "@DIR", "/nonexistent"}},
+	{"ego.runtime.stack.trace", []string{"true", "false"}},
+	{"ego.runtime.rest.errors", []string{"true", "false"}},
+	{"ego.console.log", []string{"text", "json", "bogus"}},
+}
+
+func genConfig(t *rapid.T) Config {
+	var cfg Config
+	switch k := rapid.IntRange(0, 19).Draw(t, "logclass"); {
+	case k <= 1:
+		cfg.LogClass = "baseline"
+	case k == 2:
+		cfg.LogClass = "none"
+	case k <= 7:
+		cfg.LogClass = "all"
+	case k <= 12:
+		n := rapid.SampledFrom(allLoggerNames).Draw(t, "single")
+		cfg.Loggers, cfg.LogClass = []string{n}, "single:"+n
+	case k <= 14:
+		n := rapid.SampledFrom(allLoggerNames).Draw(t, "restplus")
+		cfg.Loggers, cfg.LogClass = []string{"REST", n}, "rest+"+n
+	default:
+		for _, n := range allLoggerNames {
+			if rapid.Bool().Draw(t, "lg-"+n) {
+				cfg.Loggers = append(cfg.Loggers, n)
+			}
+		}
+		cfg.LogClass = "subset"
+	}
+	switch rapid.IntRange(0, 5).Draw(t, "logfmt") {
+	case 0:
+		cfg.LogFormat = "json"
+	case 1:
+		cfg.LogFormat = "indented"
+	}
+	if rapid.Bool().Draw(t, "settings") {
+		n := rapid.IntRange(1, 3).Draw(t, "nset")
+		cfg.Settings = map[string]string{}
+		for i := 0; i < n; i++ {
+			tg := toggles[rapid.IntRange(0, len(toggles)-1).Draw(t, "toggle")]
+			cfg.Settings[tg.key] = rapid.SampledFrom(tg.vals).Draw(t, "toggleval")
+		}
+	}
+	return cfg
+}
+
+// ---------------------------------------------------------------- size classes
+
+// sizes sit on both sides of the literal thresholds the handlers slice or
+// truncate at (10: token display; 47/50: symbol name/value in the task log;
+// 80: code in the format/ast request log; 117/120: code in the run request
+// log; 256/1024/4096: buffers; 256 KiB: the code-size limit).
+var sizes = []int{0, 1, 9, 10, 11, 46, 47, 48, 49, 50, 51, 79, 80, 81, 116, 117, 118, 119, 120, 121, 255, 256, 257, 1000, 1023, 1024, 1025, 4095, 4096, 4097, 65536, 262143, 262144, 262145}
+
+// sized returns a string of exactly n bytes of the given kind:
+//
+//	a           'a' repeated
+//	utf8        two-byte runes (a cut at an odd offset splits a rune)
+//	code-long   a parsable Ego statement padded with a comment (formats long)
+//	code-short  a parsable Ego statement padded with blanks (formats short)
+//	code-bad    an unparsable program (nothing to format)
+func sized(kind string, n int) string {
+	pad := func(prefix, fill string) string {
+		if n <= len(prefix) {
+			return strings.Repeat("a", n)
+		}
+		s := prefix + strings.Repeat(fill, (n-len(prefix))/len(fill)+1)
+		return s[:n]
+	}
+	switch kind {
+	case "utf8":
+		s := strings.Repeat("é", n/2)
+		if len(s) < n {
+			s += "a"
+		}
+		return s
+	case "code-long":
+		return pad("x := 1 // ", "c")
+	case "code-short":
+		return pad("x := 1", " ")
+	case "code-bad":
+		return pad("x := ( ", "(")
+	}
+	return strings.Repeat("a", n)
+}
+
+var sizeKinds = []string{"a", "utf8", "code-long", "code-short", "code-bad"}
+
+// replaceStringLeaves returns copies of v in which exactly one string leaf is
+// replaced by f(old) (one copy per returned string).
+func replaceStringLeaves(v any, f func(old string) []string) []any {
+	var out []any
+	var walk func(cur any, rebuild func(any) any)
+	walk = func(cur any, rebuild func(any) any) {
+		switch x := cur.(type) {
+		case M:
+			keys := make([]string, 0, len(x))
+			for k := range x {
+				keys = append(keys, k)
+			}
+			sort.Strings(keys)
+			for _, k := range keys {
+				k := k
+				walk(x[k], func(nv any) any {
+					cp := M{}
+					for kk, vv := range x {
+						cp[kk] = vv
+					}
+					cp[k] = nv
+					return rebuild(cp)
+				})
+			}
+		case A:
+			for i := range x {
+				i := i
+				if i >= 3 {
+					break
+				}
+				walk(x[i], func(nv any) any {
+					cp := append(A{}, x...)
+					cp[i] = nv
+					return rebuild(cp)
+				})
+			}
+		case string:
+			for _, ns := range f(x) {
+				out = append(out, rebuild(ns))
+			}
+		}
+	}
+	walk(v, func(nv any) any { return nv })
+	return out
+}
 
 var allMethods = []string{"GET", "POST", "PUT", "PATCH", "DELETE", "HEAD", "OPTIONS", "TRACE", "get", "Get", "PROPFIND", "QUERY"}
 
@@ -790,6 +984,13 @@ func genCase(t *rapid.T) Case {
 	c.Header, c.HdrClass = e.genHeaders(t, info, fc)
 	c.Auth, c.AuthLit = e.genAuth(t, info, fc)
 	c.Body, c.BodyClass = e.genBody(t, info, fc)
+	if strings.HasPrefix(c.BodyClass, "sized") {
+		// "sized:<kind>:<n>" -> body class "sized:<kind>", size class "<n>"
+		if i := strings.LastIndex(c.BodyClass, ":"); i > 0 {
+			c.BodyClass, c.SizeClass = c.BodyClass[:i], c.BodyClass[i+1:]
+		}
+	}
+	c.Cfg = genConfig(t)
 	if fc.on {
 		c.PathClass = "focus-" + fc.dim + ":" + c.PathClass
 		return c
@@ -818,7 +1019,13 @@ func genCase(t *rapid.T) Case {
 //	(d') every leaf of every documented payload replaced, one at a time, by
 //	    "" (string leaves) and by null;
 //	(e) the plain request without credentials, as the non-admin user and with
-//	    the revoked token.
+//	    the revoked token;
+//	(f) string sizes on both sides of the thresholds the handlers truncate at
+//	    (code of 0..262145 bytes, parsable / unparsable / formatting short, for
+//	    the code routes; 48/51/81/121-byte values in every string leaf of the
+//	    first three payloads of every route);
+//	(g) all of the above once more with every logger switched on;
+//	(h) the plain request under the REST logger alone with JSON logging.
 //
 // A defect that needs only one hostile element is therefore met in every run,
 // whatever the seed; the random search covers the combinations.
@@ -957,6 +1164,51 @@ func fixedCases() []Case {
 			c.Auth = a
 			out = append(out, c)
 		}
+		// (f) size classes around the thresholds the handlers truncate at
+		if info.Endpoint == "/admin/run" || info.Endpoint == "/admin/ast" || info.Endpoint == "/admin/format" {
+			for _, kind := range []string{"code-long", "code-short", "code-bad", "a"} {
+				for _, n := range []int{0, 1, 50, 51, 79, 80, 81, 117, 118, 120, 121, 1000, 262144, 262145} {
+					c := base("fixed-size")
+					bb, _ := json.Marshal(M{"code": sized(kind, n)})
+					c.Body, c.BodyClass, c.SizeClass = string(bb), "sized:"+kind, fmt.Sprint(n)
+					out = append(out, c)
+				}
+			}
+		}
+		for i, b := range payloads {
+			if i >= 3 {
+				break
+			}
+			for _, n := range []int{48, 51, 81, 121} {
+				n := n
+				for _, v := range replaceStringLeaves(b, func(string) []string { return []string{sized("a", n)} }) {
+					c := base("fixed-size")
+					bb, _ := json.Marshal(v)
+					c.Body, c.BodyClass, c.SizeClass = string(bb), "sized:a", fmt.Sprint(n)
+					out = append(out, c)
+				}
+			}
+		}
+	}
+	// (g) the whole sweep once more with every logger switched on, so that each
+	// route x parameter x payload-leaf case also runs with every logging branch
+	// live (payload logging, SQL, table, auth, route, validation loggers …)
+	n := len(out)
+	for i := 0; i < n; i++ {
+		out[i].Cfg.LogClass = "baseline"
+		c := out[i]
+		c.Cfg = Config{LogClass: "all"}
+		out = append(out, c)
+	}
+	// (h) the plain request of every route under the REST logger alone, in the
+	// JSON log format, and with the response-payload logging setting on
+	for i := 0; i < n; i++ {
+		if out[i].PathClass != "fixed" {
+			continue
+		}
+		c := out[i]
+		c.Cfg = Config{LogClass: "single:REST", Loggers: []string{"REST"}, LogFormat: "json", Settings: map[string]string{"ego.server.log.response": "true"}}
+		out = append(out, c)
 	}
 	return out
 }
